@@ -610,18 +610,29 @@ Proof.
   specialize (IH s1 par pats Hp). destruct (phase1 N s1). simpl in *. congruence.
 Qed.
 
+Lemma phase1_terms : forall N s term, In term (snd (phase1 N s)) ->
+  exists t d, In t N /\ term = t ++ d.
+Proof.
+  induction N as [|t0 N IH]; intros s term Hin; simpl in *; [destruct Hin|].
+  pose proof (ensure_resolves suf s t0) as R. destruct (ensure s t0 suf) as [s1 term0]. simpl in R.
+  specialize (IH s1 term). destruct (phase1 N s1) as [s2 tl]. simpl in *. destruct Hin as [<-|Hin].
+  - apply resolves_length in R as (d & -> & _). exists t0, d. auto.
+  - destruct (IH Hin) as (t & d & Ht & ->). exists t, d. auto.
+Qed.
+
 (* afterwards: nothing is pending, and what other globs see has not changed *)
 Theorem apply_glob_post lz s ap : wf_glob g -> suf <> [] -> uniq s -> pend_ok s ap ->
   let r := apply_glob lz g s ap in
   ext s (fst r) /\ uniq (fst r) /\ sat (fst r) (snd r)
   /\ (forall par pats, Forall (fun p => p <> []) pats -> walk (fst r) par pats = walk s par pats)
-  /\ (exists more, snd r = ap ++ more).
+  /\ (forall term, In term (snd r) -> In term ap \/ exists t d, In t (walk s [] (g_pats g)) /\ term = t ++ d).
 Proof.
   intros W Hne U P r. subst r.
   destruct (apply_glob_char lz s ap W Hne U P) as [E1 E2]. rewrite E1. simpl. rewrite E2.
   set (N := filter (pendb ap) (walk s [] (g_pats g))) in *.
   pose proof (phase1_ext N s) as X1. pose proof (phase1_uniq N s U) as U1.
   pose proof (phase1_walk (wf_suf g W) N s) as W1. pose proof (phase1_done N s) as D1.
+  pose proof (phase1_terms N s) as T1.
   destruct (phase1 N s) as [s' tl]. simpl in *.
   assert (Wk : forall par pats, Forall (fun p => p <> []) pats ->
              walk (fold_left (fun s term => set_prim s term v) tl s') par pats = walk s par pats).
@@ -637,7 +648,9 @@ Proof.
       destruct (D1 t HN) as (tm & R & Hin). exists tm. split; [|apply in_or_app; right; assumption].
       eapply resolves_ext; [apply fold_set_ext | exact R].
   - exact Wk.
-  - exists tl. reflexivity.
+  - intros term Hin. apply in_app_or in Hin as [Hin|Hin]; [left; assumption | right].
+    destruct (T1 term Hin) as (t & d & Ht & ->). exists t, d. split; [|reflexivity].
+    apply filter_In in Ht. apply Ht.
 Qed.
 
 Lemma apply_glob_sat_id lz s ap : wf_glob g -> suf <> [] -> uniq s -> sat s ap -> apply_glob lz g s ap = (s, ap).
@@ -676,9 +689,29 @@ Proof. induction l as [|y l IH]; intros [|i] d H; simpl in *; try lia; [reflexiv
 
 Definition glob_ok (g : glob) : Prop := wf_glob g /\ g_suf g <> [].
 
+Lemma chain_exists st : forall ms par, ms <> [] -> chain st par ms -> exists_p st (par ++ ms).
+Proof.
+  induction ms as [|m r IH]; intros par Hne C; [congruence|]. destruct C as [(e & Hin & Hp & Hn) C].
+  destruct r as [|m2 r].
+  - exists e. split; [assumption|]. unfold epath. congruence.
+  - replace (par ++ m :: m2 :: r) with ((par ++ [m]) ++ m2 :: r) by (rewrite <- app_assoc; reflexivity).
+    apply IH; [discriminate | assumption].
+Qed.
+
+(* every applied terminal lies below a field that exists, at the depth of the pattern part *)
+Definition apok (g : glob) (st : ir) (ap : list path) : Prop :=
+  forall term, In term ap -> exists t d, term = t ++ d /\ length t = length (g_pats g) /\ exists_p st t.
+
+Lemma apok_ext g st st' ap : apok g st ap -> ext st st' -> apok g st' ap.
+Proof.
+  intros A X term Hin. destruct (A term Hin) as (t & d & -> & L & Ex). exists t, d.
+  repeat split; [assumption | eapply exists_p_ext; eassumption].
+Qed.
+
 Definition good (s : cstate) : Prop :=
   uniq (c_ir s) /\ length (c_applied s) = length (c_globs s) /\
-  forall i g, nth_error (c_globs s) i = Some g -> glob_ok g /\ pend_ok g (c_ir s) (nth i (c_applied s) []).
+  forall i g, nth_error (c_globs s) i = Some g ->
+    glob_ok g /\ g_pats g <> [] /\ pend_ok g (c_ir s) (nth i (c_applied s) []) /\ apok g (c_ir s) (nth i (c_applied s) []).
 
 Definition sat_idx (i : nat) (s : cstate) : Prop :=
   forall g, nth_error (c_globs s) i = Some g -> sat g (c_ir s) (nth i (c_applied s) []).
@@ -696,26 +729,34 @@ Proof.
   intros (U & L & H). unfold GlobModel.apply_idx, sat_idx.
   destruct (nth_error (c_globs s) i) as [g|] eqn:Eg.
   2:{ split; [|split]; [split; [|split]; assumption | intros g Hg; congruence | auto]. }
-  destruct (H i g Eg) as [[W Hne] P].
-  pose proof (apply_glob_post g lz (c_ir s) (nth i (c_applied s) []) W Hne U P) as (X & U' & S & Wk & _).
+  destruct (H i g Eg) as ([W Hne] & Hpn & P & A).
+  pose proof (apply_glob_post g lz (c_ir s) (nth i (c_applied s) []) W Hne U P) as (X & U' & S & Wk & T).
   destruct (apply_glob lz g (c_ir s) (nth i (c_applied s) [])) as [st' ap'] eqn:Ea. simpl in *.
   assert (Hi : (i < length (c_applied s))%nat) by (rewrite L; apply nth_error_Some; congruence).
   unfold good. simpl. split; [|split].
-  - split; [assumption|]. split; [rewrite length_set_nth; assumption|]. intros i0 g0 H0. split; [apply (H i0 g0 H0)|].
-    destruct (H i0 g0 H0) as [[W0 _] P0]. destruct (Nat.eq_dec i i0) as [<-|Hne'].
-    + rewrite nth_set_nth_eq by assumption. assert (g0 = g) by congruence. subst. apply sat_pend. assumption.
-    + rewrite nth_set_nth_neq by assumption. eapply pend_frame; [eassumption | assumption | apply Wk, (wf_pats g0 W0)].
+  - split; [assumption|]. split; [rewrite length_set_nth; assumption|]. intros i0 g0 H0.
+    destruct (H i0 g0 H0) as ([W0 Hne0] & Hpn0 & P0 & A0). split; [split; assumption|]. split; [assumption|].
+    destruct (Nat.eq_dec i i0) as [<-|Hne'].
+    + rewrite nth_set_nth_eq by assumption. assert (g0 = g) by congruence. subst. split; [apply sat_pend; assumption|].
+      intros term Hin. destruct (T term Hin) as [Hold|(t & d & Ht & ->)].
+      * eapply apok_ext; [exact A | exact X | exact Hold].
+      * exists t, d. split; [reflexivity|]. split; [eapply walk_length; eassumption|].
+        eapply exists_p_ext; [exact X|]. apply walk_spec in Ht as (ms & -> & C & F). apply chain_exists; [|assumption].
+        intro E. subst. inversion F. symmetry in H1. contradiction.
+    + rewrite nth_set_nth_neq by assumption. split.
+      * eapply pend_frame; [eassumption | assumption | apply Wk, (wf_pats g0 W0)].
+      * eapply apok_ext; eassumption.
   - intros g0 Hg0. assert (g0 = g) by congruence. subst. rewrite nth_set_nth_eq by assumption. assumption.
   - intros j Sj g0 Hg0. destruct (Nat.eq_dec i j) as [<-|Hne'].
     + assert (g0 = g) by congruence. subst. rewrite nth_set_nth_eq by assumption. assumption.
-    + rewrite nth_set_nth_neq by assumption. destruct (H j g0 Hg0) as [[W0 _] _].
+    + rewrite nth_set_nth_neq by assumption. destruct (H j g0 Hg0) as ([W0 _] & _).
       eapply sat_frame; [apply Sj; assumption | assumption | apply Wk, (wf_pats g0 W0)].
 Qed.
 
 Lemma apply_idx_sat_id lz i s : good s -> sat_idx i s -> apply_idx lz i s = s.
 Proof.
   intros (U & L & H) S. unfold GlobModel.apply_idx. destruct (nth_error (c_globs s) i) as [g|] eqn:Eg; [|reflexivity].
-  destruct (H i g Eg) as [[W Hne] _]. rewrite (apply_glob_sat_id g lz _ _ W Hne U (S g Eg)).
+  destruct (H i g Eg) as ([W Hne] & _). rewrite (apply_glob_sat_id g lz _ _ W Hne U (S g Eg)).
   rewrite set_nth_same by (rewrite L; apply nth_error_Some; congruence). destruct s; reflexivity.
 Qed.
 
@@ -823,6 +864,385 @@ Proof.
         * intros j Hj. apply F1, HS0, Hj.
         * intros j Hj. apply in_app_or in Hj as [Hj|[<-|[]]]; [apply F1, HD0, Hj | apply S1]. }
   apply (Inner (seq 0 n) [] s); auto. intros i [].
+Qed.
+
+(* ------------------------------------------------------------------ closedness: parents exist *)
+
+Definition closed' (st : ir) : Prop := forall e, In e st -> chain st [] (epar e).
+
+Lemma has_ext st st' par n : ext st st' -> has st par n -> has st' par n.
+Proof.
+  intros [more K] (e & Hin & Hp & Hn). unfold keys in K.
+  assert (H : In (key e) (map key st')) by (rewrite K; apply in_or_app; left; apply in_map; assumption).
+  apply in_map_iff in H as (e' & Hk & Hin'). exists e'. unfold key in Hk. inversion Hk. repeat split; congruence.
+Qed.
+
+Lemma chain_ext st st' : ext st st' -> forall ms par, chain st par ms -> chain st' par ms.
+Proof.
+  intros X. induction ms as [|m r IH]; intros par C; simpl in *; [exact I|].
+  destruct C as [H C]. split; [eapply has_ext; eassumption | apply IH; assumption].
+Qed.
+
+Lemma chain_snoc st : forall ms par n, chain st par ms -> has st (par ++ ms) n -> chain st par (ms ++ [n]).
+Proof.
+  induction ms as [|m r IH]; intros par n C H; simpl in *.
+  - rewrite app_nil_r in H. auto.
+  - destruct C as [H1 C]. split; [assumption|]. apply IH; [assumption|]. rewrite <- app_assoc. exact H.
+Qed.
+
+Lemma ensure_closed : forall names st par, closed' st -> chain st [] par ->
+  closed' (fst (ensure st par names)) /\ chain (fst (ensure st par names)) [] (snd (ensure st par names)).
+Proof.
+  induction names as [|n names IH]; intros st par Cl Cp; simpl; [auto|].
+  destruct (find_child st par n) as [nm|] eqn:F.
+  - apply IH; [assumption|]. apply find_child_some in F as [H _]. apply chain_snoc; assumption.
+  - assert (X : ext st (st ++ [E par n None])) by apply ext_app.
+    assert (Hn : has (st ++ [E par n None]) par n).
+    { exists (E par n None). split; [apply in_or_app; right; left; reflexivity | auto]. }
+    apply IH.
+    + intros e Hin. apply in_app_or in Hin as [Hin|[<-|[]]].
+      * eapply chain_ext; [exact X | apply Cl; assumption].
+      * simpl. eapply chain_ext; eassumption.
+    + apply chain_snoc; [eapply chain_ext; eassumption | simpl; assumption].
+Qed.
+
+Lemma set_prim_closed st q w : closed' st -> closed' (set_prim st q w).
+Proof.
+  intros Cl e Hin. unfold set_prim in Hin. apply in_map_iff in Hin as (e0 & He & Hin).
+  assert (epar e = epar e0) by (destruct (path_eqb (epath e0) q); subst; reflexivity).
+  rewrite H. eapply chain_ext; [apply ext_set_prim | apply Cl; assumption].
+Qed.
+
+Lemma plain_step_props st x : uniq st -> closed' st ->
+  uniq (plain_step st x) /\ closed' (plain_step st x) /\ ext st (plain_step st x).
+Proof.
+  intros U Cl. destruct x as [q w|g]; simpl; [|auto using ext_refl].
+  pose proof (ensure_uniq q st [] U) as U1. pose proof (ensure_closed q st [] Cl I) as [Cl1 _].
+  pose proof (ensure_ext q st []) as X1.
+  destruct (ensure st [] q) as [st1 term]. simpl in *. destruct w as [w|]; [|auto].
+  split; [apply set_prim_uniq; assumption|]. split; [apply set_prim_closed; assumption|].
+  eapply ext_trans; [eassumption | apply ext_set_prim].
+Qed.
+
+Lemma run_plain_props : forall p st, uniq st -> closed' st ->
+  uniq (run_plain_from st p) /\ closed' (run_plain_from st p) /\ ext st (run_plain_from st p).
+Proof.
+  induction p as [|x p IH]; intros st U Cl; [simpl; auto using ext_refl|].
+  unfold GlobModel.run_plain_from in *. cbn [fold_left].
+  destruct (plain_step_props st x U Cl) as (U1 & Cl1 & X1). destruct (IH _ U1 Cl1) as (U2 & Cl2 & X2).
+  split; [assumption|]. split; [assumption|]. eapply ext_trans; eassumption.
+Qed.
+
+Lemma run_plain_app st a b : run_plain_from st (a ++ b) = run_plain_from (run_plain_from st a) b.
+Proof. apply fold_left_app. Qed.
+
+Lemma exists_path_iff st q : exists_path st q = true <-> exists_p st q.
+Proof.
+  unfold exists_path, exists_p. rewrite existsb_exists. split.
+  - intros (e & Hin & E). apply path_eqb_eq in E. eauto.
+  - intros (e & Hin & E). exists e. split; [assumption | rewrite E; apply path_eqb_refl].
+Qed.
+
+Lemma exists_chain st t : closed' st -> exists_p st t -> chain st [] t.
+Proof.
+  intros Cl (e & Hin & <-). unfold epath. apply chain_snoc; [apply Cl; assumption|].
+  simpl. exists e. auto.
+Qed.
+
+(* ------------------------------------------------------------------ pending = new *)
+
+Lemma pend_after_ensure g st st1 ap :
+  uniq st -> closed' st -> sat g st ap -> apok g st ap -> ext st st1 ->
+  pend_ok g st1 ap /\
+  (forall t, In t (walk st1 [] (g_pats g)) -> pendb ap t = negb (exists_path st t)).
+Proof.
+  intros U Cl S A X.
+  assert (K : forall t, In t (walk st1 [] (g_pats g)) ->
+            (exists_path st t = true /\ done g st1 ap t) \/ (exists_path st t = false /\ pendb ap t = true)).
+  { intros t Ht. destruct (exists_path st t) eqn:Ex.
+    - left. split; [reflexivity|]. apply exists_path_iff in Ex. pose proof (exists_chain st t Cl Ex) as C.
+      assert (Ht0 : In t (walk st [] (g_pats g))).
+      { apply walk_spec in Ht as (ms & E & _ & F). simpl in E. subst ms. apply walk_spec. exists t. auto. }
+      destruct (S t Ht0) as (tm & R & Hin). exists tm. split; [eapply resolves_ext; eassumption | assumption].
+    - right. split; [reflexivity|]. unfold pendb. apply negb_true_iff.
+      destruct (existsb (prefixb t) ap) eqn:Eb; [|reflexivity]. exfalso.
+      apply existsb_exists in Eb as (term & Hin & Hp). destruct (A term Hin) as (t0 & d & -> & L & Ex0).
+      unfold prefixb in Hp. rewrite (walk_length _ _ _ Ht), <- L, firstn_app, Nat.sub_diag, firstn_all in Hp.
+      simpl in Hp. rewrite app_nil_r in Hp. apply path_eqb_eq in Hp. subst t0.
+      apply exists_path_iff in Ex0. congruence. }
+  split.
+  - intros t Ht. destruct (K t Ht) as [[_ D]|[_ P]]; auto.
+  - intros t Ht. destruct (K t Ht) as [[E D]|[E P]]; rewrite E; simpl; [apply (done_not_pend g st1); assumption | assumption].
+Qed.
+
+(* ------------------------------------------------------------------ what the loop computes, as explicit keys *)
+
+Fixpoint seq_bodies (st0 : ir) (gs : list glob) (aps : list (list path)) : program :=
+  match gs, aps with
+  | g :: gs', ap :: aps' => map (body g) (filter (pendb ap) (walk st0 [] (g_pats g))) ++ seq_bodies st0 gs' aps'
+  | _, _ => []
+  end.
+
+Lemma skipn_nth_error {A} : forall (l : list A) k x, nth_error l k = Some x -> skipn k l = x :: skipn (S k) l.
+Proof. induction l as [|y l IH]; intros [|k] x H; simpl in *; try discriminate; [inversion H; reflexivity | apply IH; assumption]. Qed.
+
+Lemma skipn_set_nth {A} : forall (l : list A) k x, skipn (S k) (set_nth l k x) = skipn (S k) l.
+Proof. induction l as [|y l IH]; intros [|k] x; simpl; try reflexivity. apply IH. Qed.
+
+Lemma nth_error_nth' {A} : forall (l : list A) k d, (k < length l)%nat -> nth_error l k = Some (nth k l d).
+Proof. induction l as [|y l IH]; intros [|k] d H; simpl in *; try lia; [reflexivity | apply IH; lia]. Qed.
+
+Lemma apply_idx_ir lz i s g : good s -> nth_error (c_globs s) i = Some g ->
+  c_ir (apply_idx lz i s)
+  = run_plain_from (c_ir s) (map (body g) (filter (pendb (nth i (c_applied s) [])) (walk (c_ir s) [] (g_pats g))))
+  /\ (forall par pats, Forall (fun p => p <> []) pats -> walk (c_ir (apply_idx lz i s)) par pats = walk (c_ir s) par pats)
+  /\ (exists ap', c_applied (apply_idx lz i s) = set_nth (c_applied s) i ap')
+  /\ ext (c_ir s) (c_ir (apply_idx lz i s)).
+Proof.
+  intros (U & L & H) Eg. destruct (H i g Eg) as ([W Hne] & Hpn & P & A).
+  pose proof (apply_glob_char g lz (c_ir s) (nth i (c_applied s) []) W Hne U P) as [E _].
+  pose proof (apply_glob_post g lz (c_ir s) (nth i (c_applied s) []) W Hne U P) as (X & _ & _ & Wk & _).
+  unfold GlobModel.apply_idx. rewrite Eg.
+  destruct (apply_glob lz g (c_ir s) (nth i (c_applied s) [])) as [st' ap'] eqn:Ea. simpl in *.
+  inversion E; subst. split; [reflexivity|]. split; [assumption|]. split; [eexists; reflexivity | assumption].
+Qed.
+
+Lemma seqapp_ir st0 : forall m k s, good s -> (k + m = length (c_globs s))%nat ->
+  (forall j g, (k <= j)%nat -> nth_error (c_globs s) j = Some g -> walk (c_ir s) [] (g_pats g) = walk st0 [] (g_pats g)) ->
+  c_ir (seqapp (seq k m) s)
+  = run_plain_from (c_ir s) (seq_bodies st0 (skipn k (c_globs s)) (skipn k (c_applied s))).
+Proof.
+  induction m as [|m IH]; intros k s G Hl Hw.
+  - simpl. rewrite skipn_all2 by lia. reflexivity.
+  - cbn [seq seqapp fold_left]. fold (seqapp (seq (S k) m) (apply_idx true k s)).
+    destruct G as (U & L & H). assert (G : good s) by (split; [|split]; assumption).
+    assert (Hk : (k < length (c_globs s))%nat) by lia.
+    destruct (nth_error (c_globs s) k) as [g|] eqn:Eg; [|apply nth_error_None in Eg; lia].
+    destruct (apply_idx_ir true k s g G Eg) as (Eir & Wk & (ap' & Eap) & X).
+    destruct (apply_idx_good true k s G) as (G1 & _ & _).
+    rewrite (IH (S k) (apply_idx true k s) G1).
+    + rewrite apply_idx_globs, Eap, skipn_set_nth, Eir.
+      rewrite (skipn_nth_error _ _ _ Eg).
+      rewrite (skipn_nth_error (c_applied s) k (nth k (c_applied s) [])) by (apply nth_error_nth'; lia).
+      cbn [seq_bodies]. rewrite run_plain_app. rewrite (Hw k g (le_n k) Eg). reflexivity.
+    + rewrite apply_idx_globs. lia.
+    + intros j g0 Hj Hg0. rewrite apply_idx_globs in Hg0. destruct (H j g0 Hg0) as ([W0 _] & _).
+      rewrite Wk by (apply (wf_pats g0 W0)). apply (Hw j g0); [lia | assumption].
+Qed.
+
+Lemma seq_bodies_eq st0 (F : glob -> program) : forall gs aps, length aps = length gs ->
+  (forall i g, nth_error gs i = Some g ->
+     map (body g) (filter (pendb (nth i aps [])) (walk st0 [] (g_pats g))) = F g) ->
+  seq_bodies st0 gs aps = flat_map F gs.
+Proof.
+  induction gs as [|g gs IH]; intros [|ap aps] L H; simpl in *; try discriminate; [reflexivity|].
+  rewrite (H 0%nat g eq_refl). f_equal. apply IH; [lia|]. intros i g0 Hg0. apply (H (S i) g0 Hg0).
+Qed.
+
+(* ------------------------------------------------------------------ the invariant between statements *)
+
+Definition inv (s : cstate) : Prop := good s /\ closed' (c_ir s) /\ forall i, sat_idx i s.
+
+Fixpoint wf_from (gs : list glob) (p : program) : Prop :=
+  match p with
+  | [] => True
+  | SKey q _ :: r => q <> [] /\ wf_from gs r
+  | SGlob g :: r => glob_ok g /\ g_pats g <> [] /\ find_glob gs g 0 = None /\ wf_from (gs ++ [g]) r
+  end.
+
+Lemma targets_walk g st : g_pre g = [] -> targets g st = walk st [] (g_pats g).
+Proof. intro E. unfold GlobModel.targets. rewrite E. reflexivity. Qed.
+
+Lemma good_with_ir s st1 : good s -> closed' (c_ir s) -> (forall i, sat_idx i s) -> ext (c_ir s) st1 -> uniq st1 ->
+  good (C st1 (c_globs s) (c_applied s)).
+Proof.
+  intros (U & L & H) Cl S X U1. split; [assumption|]. split; [assumption|]. simpl. intros i g Eg.
+  destruct (H i g Eg) as (Ok & Hpn & P & A). split; [assumption|]. split; [assumption|]. split.
+  - apply (pend_after_ensure g (c_ir s) st1 _ U Cl (S i g Eg) A X).
+  - eapply apok_ext; eassumption.
+Qed.
+
+Theorem step_key s q w : inv s -> q <> [] ->
+  exists s', step s (SKey q w) = Some s' /\ inv s' /\ c_globs s' = c_globs s /\
+    c_ir s' = run_plain_from (c_ir s)
+                (SKey q None :: flat_map (fun g => map (body g) (new_targets g (c_ir s) (fst (ensure (c_ir s) [] q))))
+                                         (c_globs s) ++ [SKey q w]).
+Proof.
+  intros (G & Cl & S) Hq. pose proof G as (U & L & H).
+  unfold GlobModel.step. pose proof (ensure_resolves q (c_ir s) []) as Rq.
+  pose proof (ensure_ext q (c_ir s) []) as X1. pose proof (ensure_uniq q (c_ir s) [] U) as U1.
+  pose proof (ensure_closed q (c_ir s) [] Cl I) as [Cl1 _].
+  destruct (ensure (c_ir s) [] q) as [ir1 term] eqn:En. simpl in Rq, X1, U1, Cl1. cbv beta iota.
+  set (s1 := C ir1 (c_globs s) (c_applied s)).
+  assert (G1 : good s1) by (apply good_with_ir; assumption).
+  set (n := length (c_globs s)).
+  rewrite (reapply_seq _ [] s1 G1); [| intros i [] | apply NoDup_nil | intros i [] | unfold fuel_of, s1; simpl; lia].
+  change (length (c_globs s1)) with n.
+  destruct (seqapp_good (seq 0 n) s1 G1) as (G2 & E2 & _ & A2). set (s2 := seqapp (seq 0 n) s1) in *.
+  assert (S2 : forall i, sat_idx i s2).
+  { intros i g Eg. rewrite E2 in Eg. apply (A2 i); [|rewrite E2; assumption].
+    apply in_seq. assert (i < n)%nat by (apply nth_error_Some; unfold s1 in Eg; simpl in Eg; congruence). lia. }
+  (* the IR after the loop, as explicit keys *)
+  assert (Eir : c_ir s2 = run_plain_from ir1
+                 (flat_map (fun g => map (body g) (new_targets g (c_ir s) ir1)) (c_globs s))).
+  { unfold s2. rewrite (seqapp_ir ir1 n 0 s1 G1); [| reflexivity | reflexivity]. simpl.
+    f_equal. apply seq_bodies_eq; [assumption|]. intros i g Eg. destruct (H i g Eg) as ([W _] & _ & _ & A).
+    unfold GlobModel.new_targets. rewrite (targets_walk g ir1 (wf_pre g W)). f_equal. apply filter_ext_in.
+    intros t Ht. apply (pend_after_ensure g (c_ir s) ir1 _ U Cl (S i g Eg) A X1). assumption. }
+  (* the value *)
+  set (s3 := match w with Some x => C (set_prim (c_ir s2) term x) (c_globs s2) (c_applied s2) | None => s2 end).
+  assert (X2 : ext ir1 (c_ir s2)).
+  { rewrite Eir. pose proof (run_plain_props (flat_map (fun g => map (body g) (new_targets g (c_ir s) ir1)) (c_globs s)) ir1 U1 Cl1).
+    apply H0. }
+  assert (Cl2 : closed' (c_ir s2)).
+  { rewrite Eir. apply run_plain_props; assumption. }
+  assert (G3 : good s3 /\ closed' (c_ir s3) /\ (forall i, sat_idx i s3) /\ c_globs s3 = c_globs s
+               /\ c_ir s3 = match w with Some x => set_prim (c_ir s2) term x | None => c_ir s2 end).
+  { destruct w as [x|];
+      [|unfold s3; split; [assumption|]; split; [assumption|]; split; [assumption|]; split; [assumption | reflexivity]].
+    destruct G2 as (Ug & Lg & Hg). unfold s3. simpl. split; [|split; [|split; [|split]]].
+    - split; [apply set_prim_uniq; assumption|]. split; [assumption|]. simpl. intros i g Eg.
+      destruct (Hg i g Eg) as (Ok & Hpn & P & A). split; [assumption|]. split; [assumption|]. split.
+      + eapply pend_frame; [exact P | apply ext_set_prim | apply walk_set_prim].
+      + eapply apok_ext; [exact A | apply ext_set_prim].
+    - apply set_prim_closed. assumption.
+    - intros i g Eg. simpl in *. eapply sat_frame; [apply (S2 i g Eg) | apply ext_set_prim | apply walk_set_prim].
+    - assumption.
+    - reflexivity. }
+  destruct G3 as (G3 & Cl3 & S3 & Eg3 & Eir3).
+  exists s3. split.
+  - fold s3. destruct (changed s s3); [|reflexivity].
+    rewrite (reapply_seq (fuel_of s3) [] s3 G3); [| intros i [] | apply NoDup_nil | intros i [] | unfold fuel_of; lia].
+    f_equal. apply seqapp_sat_id; [assumption | intros; apply S3].
+  - split; [split; [|split]; assumption|]. split; [assumption|].
+    rewrite Eir3. change (SKey q None :: ?l ++ [SKey q w]) with ([SKey q None] ++ l ++ [SKey q w]).
+    rewrite !run_plain_app. simpl. rewrite En. simpl. rewrite <- Eir.
+    assert (Rq2 : ensure (c_ir s2) [] q = (c_ir s2, term)).
+    { apply resolves_ensure. eapply resolves_ext; eassumption. }
+    unfold GlobModel.run_plain_from. simpl. rewrite Rq2. destruct w; reflexivity.
+Qed.
+
+Lemma filter_all {A} (f : A -> bool) l : (forall x, In x l -> f x = true) -> filter f l = l.
+Proof.
+  induction l as [|a l IH]; simpl; intros H; [reflexivity|].
+  rewrite (H a (or_introl eq_refl)). f_equal. apply IH. intros; apply H; right; assumption.
+Qed.
+
+Lemma flat_map_nil {A B} (f : A -> list B) l : (forall x, In x l -> f x = []) -> flat_map f l = [].
+Proof.
+  induction l as [|a l IH]; simpl; intros H; [reflexivity|].
+  rewrite (H a (or_introl eq_refl)). apply IH. intros; apply H; right; assumption.
+Qed.
+
+Lemma walk_exists st pats t : pats <> [] -> In t (walk st [] pats) -> exists_path st t = true.
+Proof.
+  intros Hne Ht. apply exists_path_iff. apply walk_spec in Ht as (ms & -> & C & F).
+  apply chain_exists; [|assumption]. intro E. subst. inversion F. congruence.
+Qed.
+
+Theorem step_glob s g : inv s -> glob_ok g -> g_pats g <> [] -> find_glob (c_globs s) g 0 = None ->
+  exists s', step s (SGlob g) = Some s' /\ inv s' /\ c_globs s' = c_globs s ++ [g] /\
+    c_ir s' = run_plain_from (c_ir s)
+                (bare (g_pre g)
+                 ++ flat_map (fun g' => map (body g') (new_targets g' (c_ir s) (fst (ensure (c_ir s) [] (g_pre g))))) (c_globs s)
+                 ++ map (body g) (targets g (fst (ensure (c_ir s) [] (g_pre g))))).
+Proof.
+  intros (G & Cl & S) Ok Hpn Hf. pose proof G as (U & L & H). destruct Ok as [W Hne].
+  unfold GlobModel.step. rewrite Hf. set (n := length (c_globs s)).
+  set (s0 := C (c_ir s) (c_globs s ++ [g]) (c_applied s ++ [[]])).
+  assert (Eg : nth_error (c_globs s0) n = Some g).
+  { unfold s0. simpl. rewrite nth_error_app2 by (unfold n; lia). unfold n. rewrite Nat.sub_diag. reflexivity. }
+  assert (G0 : good s0).
+  { split; [assumption|]. split; [unfold s0; simpl; rewrite !app_length; simpl; lia|].
+    intros i g0 Eg0. unfold s0 in *. simpl in *. destruct (Nat.lt_ge_cases i n) as [Hi|Hi].
+    - rewrite nth_error_app1 in Eg0 by assumption. rewrite app_nth1 by (rewrite L; assumption).
+      destruct (H i g0 Eg0) as (Ok0 & Hp0 & _ & A0). split; [assumption|]. split; [assumption|].
+      split; [apply sat_pend, (S i g0 Eg0) | assumption].
+    - assert (i = n).
+      { assert (i < length (c_globs s ++ [g]))%nat by (apply nth_error_Some; congruence).
+        rewrite app_length in H0. simpl in H0. unfold n in *. lia. }
+      subst i. rewrite Eg in Eg0. inversion Eg0; subst g0.
+      rewrite app_nth2 by (rewrite L; unfold n; lia). rewrite L. unfold n. rewrite Nat.sub_diag. simpl.
+      split; [split; assumption|]. split; [assumption|]. split.
+      + intros t Ht. right. reflexivity.
+      + intros term []. }
+  assert (S0 : forall i, (i < n)%nat -> sat_idx i s0).
+  { intros i Hi g0 Eg0. unfold s0 in *. simpl in *. rewrite nth_error_app1 in Eg0 by assumption.
+    rewrite app_nth1 by (rewrite L; assumption). apply (S i g0 Eg0). }
+  destruct (apply_idx_good false n s0 G0) as (G1 & Sn & F1).
+  destruct (apply_idx_ir false n s0 g G0 Eg) as (Eir & _ & _ & X).
+  set (s1 := apply_idx false n s0) in *.
+  assert (E1 : c_globs s1 = c_globs s ++ [g]) by (unfold s1; rewrite apply_idx_globs; reflexivity).
+  assert (S1 : forall i, sat_idx i s1).
+  { intros i. destruct (Nat.lt_ge_cases i n) as [Hi|Hi]; [apply F1, S0, Hi|].
+    destruct (Nat.eq_dec i n) as [->|Hn]; [assumption|]. intros g0 Eg0. rewrite E1 in Eg0.
+    assert (i < length (c_globs s ++ [g]))%nat by (apply nth_error_Some; congruence).
+    rewrite app_length in H0. simpl in H0. unfold n in *. lia. }
+  assert (Eir' : c_ir s1 = run_plain_from (c_ir s) (map (body g) (walk (c_ir s) [] (g_pats g)))).
+  { rewrite Eir. unfold s0. simpl. rewrite app_nth2 by (rewrite L; unfold n; lia). rewrite L. unfold n.
+    rewrite Nat.sub_diag. simpl. rewrite filter_all; [reflexivity | intros; reflexivity]. }
+  exists s1. split.
+  - destruct (changed s0 s1); [|reflexivity].
+    rewrite (reapply_seq (fuel_of s1) [n] s1 G1).
+    + f_equal. apply seqapp_sat_id; [assumption | intros; apply S1].
+    + intros i [<-|[]]. apply S1.
+    + constructor; [intros [] | constructor].
+    + intros i [<-|[]]. rewrite E1, app_length. simpl. unfold n. lia.
+    + unfold fuel_of. rewrite E1, app_length. simpl. lia.
+  - split; [|split; [assumption|]].
+    + split; [assumption|]. split; [|assumption]. rewrite Eir'. apply run_plain_props; assumption.
+    + rewrite (wf_pre g W). simpl. rewrite Eir'. rewrite (targets_walk g _ (wf_pre g W)).
+      rewrite flat_map_nil; [reflexivity|]. intros g' Hg'.
+      destruct (In_nth_error _ _ Hg') as [i Ei]. destruct (H i g' Ei) as ([W' _] & Hp' & _).
+      unfold GlobModel.new_targets. rewrite (targets_walk g' _ (wf_pre g' W')).
+      rewrite filter_none; [reflexivity|]. intros t Ht. rewrite (walk_exists _ _ _ Hp' Ht). reflexivity.
+Qed.
+
+Lemma inv_init : inv (C [] [] []).
+Proof.
+  split; [|split].
+  - split; [|split].
+    + intros a e1 b e2 c Hc. destruct a; discriminate.
+    + reflexivity.
+    + intros i g Hg. destruct i; discriminate.
+  - intros e [].
+  - intros i g Hg. destruct i; discriminate.
+Qed.
+
+Theorem run_expand : forall p s, inv s -> wf_from (c_globs s) p ->
+  exists s', run_from s p = Some s' /\
+             c_ir s' = run_plain_from (c_ir s) (expand_from (c_ir s) (c_globs s) p).
+Proof.
+  induction p as [|x p IH]; intros s Iv Wf.
+  - exists s. split; reflexivity.
+  - destruct x as [q w|g]; cbn [wf_from] in Wf.
+    + destruct Wf as [Hq Wf]. destruct (step_key s q w Iv Hq) as (s1 & Es & Iv1 & Eg & Eir).
+      rewrite <- Eg in Wf. destruct (IH s1 Iv1 Wf) as (s' & Er & Eir').
+      exists s'. cbn [GlobModel.run_from]. rewrite Es. split; [assumption|].
+      cbn [GlobModel.expand_from]. rewrite run_plain_app, <- Eir, <- Eg. exact Eir'.
+    + destruct Wf as (Ok & Hpn & Hf & Wf). destruct (step_glob s g Iv Ok Hpn Hf) as (s1 & Es & Iv1 & Eg & Eir).
+      rewrite <- Eg in Wf. destruct (IH s1 Iv1 Wf) as (s' & Er & Eir').
+      exists s'. cbn [GlobModel.run_from]. rewrite Es. split; [assumption|].
+      cbn [GlobModel.expand_from]. rewrite run_plain_app, <- Eir, <- Eg. exact Eir'.
+Qed.
+
+(* glob_equiv_expansion: the program with globs compiles to exactly the IR of its reference expansion *)
+Theorem glob_equiv_expansion p : wf_from [] p ->
+  GlobModel.run keq mt p = Some (GlobModel.run_plain keq (GlobModel.expand keq mt p)).
+Proof.
+  intro Wf. destruct (run_expand p (C [] [] []) inv_init Wf) as (s' & Er & Eir).
+  unfold GlobModel.run. rewrite Er. f_equal. exact Eir.
+Qed.
+
+(* every field a glob reaches exists, lies at the depth of its pattern part, and each of its names is matched
+   by the corresponding pattern; conversely every such field is reached *)
+Theorem targets_spec g st t : g_pre g = [] ->
+  (In t (targets g st) <->
+   chain st [] t /\ Forall2 (fun m p => mt m p = true) t (g_pats g)).
+Proof.
+  intro E. rewrite (targets_walk g st E), walk_spec. split.
+  - intros (ms & -> & C & F). auto.
+  - intros [C F]. exists t. auto.
 Qed.
 
 End Proofs.
